@@ -43,6 +43,9 @@ def walk_all(effs, loops=None, guards=None, stack=None, pre=None):
         e = x["e"]
         if e == "loop":
             yield from walk_all(x["body"], loops + [x], guards, stack, pre)
+            if x.get("latch"):
+                # the latch runs after every iteration, including those cut short by `continue`
+                yield from walk_all(x["latch"], loops + [x], guards, stack, pre)
         elif e == "while":
             yield x, loops, guards, stack, pre
             yield from walk_all(x["body"], loops + [x], guards, stack, pre)
